@@ -14,7 +14,7 @@ from jaqalpaq.core import (
 
 
 def notate_slice(s):
-    if s.step:
+    if s.step is not None:
         return "%s:%s:%s" % (
             generate_jaqal_value(s.start or 0),
             generate_jaqal_value(s.stop),
